@@ -38,7 +38,8 @@ CONSTANTS
     ResetAnywhere,  \* BOOLEAN: reset enabled in every phase (repeated / abandoned episodes)
     ClockRule,   \* "before_newdate" (pinned code) | "after_newdate" (the property)
     HistoryOrder,\* "latent_first"   (pinned code) | "by_time" (the property)
-    NullRule     \* "float"          (pinned code) | "in_space" (the property)
+    NullRule,    \* "float"          (pinned code) | "in_space" (the property)
+    StartStride  \* exploration bound: 1 = every valid start is explored, k = every k-th (and the last) one
 
 VARIABLES cfg, env, elog, execs, ret, hist, ncalls
 vars == <<cfg, env, elog, execs, ret, hist, ncalls>>
@@ -102,6 +103,11 @@ Call(rec) == /\ hist' = Append(hist, rec)
 EffLen(rl) == IF rl > 0 THEN rl - 1 ELSE cfg.eplen
 CfgFor(rl) == [cfg EXCEPT !.eplen = EffLen(rl)]
 
+\* exploration bound for long folds: only every StartStride-th valid start (and the last one) is explored; what the
+\* invariants say about the SET of valid starts is not affected
+Explored(S) == IF StartStride = 1 THEN S
+               ELSE {x \in S : (x - 1) % StartStride = 0 \/ \A y \in S : y <= x}
+
 ResetF(start, rl) ==
     LET steps == EpisodeSteps(CfgFor(rl), cfg.fsteps, start)
         e0 == [FreshEnv(steps) EXCEPT !.eplen = EffLen(rl)]
@@ -132,7 +138,7 @@ Reset ==
               /\ ret' = [call |-> 0, out |-> "error", done |-> FALSE, now |-> NoTime]
               /\ Call([call |-> "reset", start |-> 0, act |-> [id |-> rl, cls |-> "ok"], out |-> "error",
                        done |-> FALSE, now |-> NoTime, log |-> <<>>, exec |-> <<>>])
-         ELSE \E start \in ValidStarts(CfgFor(rl), cfg.fsteps) : DoReset(start, rl)
+         ELSE \E start \in Explored(ValidStarts(CfgFor(rl), cfg.fsteps)) : DoReset(start, rl)
     /\ UNCHANGED cfg
 
 \* the j-th step of the episode submits action j (class ok unless it is the configured malformed one)
@@ -194,7 +200,7 @@ Advancing(c) ==
         c.part.N[c.fsteps[k]] # <<>> \/ c.part.L[c.fsteps[k + 1]] # <<>>
 
 MkCfg(evs, lat, fold, mode, delay, eplen, space, bad) ==
-    LET ids  == SeqOfSet(evs)
+    LET ids  == SelectSeq([i \in 1..Len(Cand) |-> i], LAMBDA i : i \in evs)
         base == [grid |-> Grid, events |-> [j \in 1..Len(ids) |-> Ev(ids[j])],
                  lat |-> lat, fstart |-> fold[1], fend |-> fold[2], markov |-> mode.markov,
                  warmup |-> mode.warmup, delay |-> delay, eplen |-> eplen, space |-> space, bad |-> bad]
